@@ -18,12 +18,17 @@
 #ifndef WMAX
 #define WMAX 8
 #endif
+#ifndef NDD
+#define NDD 2
+#endif
 
 using namespace hk;
 
 namespace {
 std::int64_t g_delta[KNODES][JEVALS];     // delta requested by node k at its j-th evaluation (0: none)
-constexpr int MAXREQ = KNODES * (JEVALS + 1);
+constexpr int MAXREQ = (KNODES + 1) * (JEVALS + 2);
+DateTime g_input_ticks[JEVALS + 2];
+int g_ninput = 0;
 struct Req { DateTime t; int node; };
 Req g_req[MAXREQ];
 int g_nreq = 0;
@@ -50,6 +55,30 @@ struct Sched {
         n.set(j + 1);
     }
 };
+// An input-driven node that ALSO uses its scheduler: each tick of its input asks for a wake-up DD[j] later.  An input tick
+// that arrives while an earlier request is still pending exercises the re-arm branch of node.cpp evaluate_impl (the graph
+// slot was overwritten by the input notification and must be restored to the pending time).
+std::int64_t g_dd[JEVALS + 2];
+constexpr int DELAY_ID = KNODES;
+struct Delay {
+    static constexpr auto name = "delay";
+    static void eval(In<"a", TS<Int>> a, NodeScheduler s, State<Int> n, DateTime now, Out<TS<Int>> out) {
+        if (g_nruns < MAXREQ + 8) g_runs[g_nruns++] = Run{now, DELAY_ID};
+        if (a.modified()) {
+            Int j = n.get();
+            g_input_ticks[g_ninput++ % (JEVALS + 2)] = now;
+            if (j < NDD) {
+                std::int64_t d = g_dd[j];
+                if (d > 0) {
+                    s.schedule(TimeDelta{d});
+                    if (g_nreq < MAXREQ) g_req[g_nreq++] = Req{now + TimeDelta{d}, DELAY_ID};
+                }
+            }
+            n.set(j + 1);
+        }
+        out.set(n.get());
+    }
+};
 struct Sink {
     static constexpr auto name = "sink";
     static void eval(In<"a", TS<Int>> a, State<Int> acc) { acc.set(acc.get() + a.value()); }
@@ -60,15 +89,17 @@ struct Top {
         for (int k = 0; k < KNODES; k++) {
             auto p = wire<Sched>(w, Int{k});
             wire<Sink>(w, p);
+            if (k == 0) { auto dl = wire<Delay>(w, p); wire<Sink>(w, dl); }
         }
     }
 };
-EventLog<64> g_log;
+EventLog<256> g_log;
 }  // namespace
 
 extern "C" int harness_main() {
     for (int k = 0; k < KNODES; k++)
         for (int j = 0; j < JEVALS; j++) g_delta[k][j] = verif_range("delta", 0, DMAX);
+    for (int j = 0; j < NDD; j++) g_dd[j] = verif_range("ddelta", 0, DMAX);
     std::int64_t s0 = verif_range("start", 0, 1000);
     std::int64_t win = verif_range("window", 1, WMAX);
     g_start = at_us(s0);
@@ -76,7 +107,7 @@ extern "C" int harness_main() {
     // schedule_on_start: every node asks for the start time
     for (int k = 0; k < KNODES; k++) g_req[g_nreq++] = Req{g_start, k};
 
-    RecordingObserver<64> obs{&g_log};
+    RecordingObserver<256> obs{&g_log};
     run_sim(build_graph<Top>(), g_start, g_end, &obs);
 
     // ---- oracle.  Branch-free accumulation: comparisons of symbolic times become solver terms, not
@@ -101,16 +132,25 @@ extern "C" int harness_main() {
         beyond |= (g_req[r].t >= g_end);
         ok_honoured &= ran | (g_req[r].t >= g_end);
     }
+    bool rearm_case = false;
     for (int i = 0; i < g_nruns; i++) {
         bool asked = false;
         for (int r = 0; r < g_nreq; r++) asked |= (g_req[r].t == g_runs[i].t) & (g_req[r].node == g_runs[i].node);
+        if (g_runs[i].node == DELAY_ID) {  // the input-driven node also runs when its input (node 0's output) ticked
+            for (int q = 0; q < g_nruns; q++) asked |= (g_runs[q].node == 0) & (g_runs[q].t == g_runs[i].t);
+        }
         ok_asked &= asked;
     }
+    // an input tick strictly between a request and its due time (the re-arm situation)
+    for (int r = 0; r < g_nreq; r++)
+        if (g_req[r].node == DELAY_ID)
+            for (int q = 0; q < g_nruns; q++) rearm_case |= (g_runs[q].node == 0) & (g_runs[q].t < g_req[r].t) & (g_runs[q].t > g_req[r].t - TimeDelta{DMAX + 1}) & (g_req[r].t < g_end);
     verif_assert(ok_window, "C02.time_strictly_increases_within_window");
     verif_assert(ok_requested, "C02.no_spurious_cycle");
     verif_assert(ok_honoured, "C02.wakeup_honoured_at_exact_time");
     verif_assert(ok_asked, "C02.node_ran_only_when_requested");
     if (beyond) verif_reach("request_beyond_end");
+    if (rearm_case) verif_reach("input_tick_while_own_wakeup_pending");
     if (cycles >= 3) verif_reach("three_cycles");
     verif_log("cycles", cycles);
     verif_reach("end");
